@@ -42,6 +42,24 @@ func wireCheck(v interface{}, nm map[string]string) (bytes []byte, got *av.V, de
 	if w != g {
 		return bytes, got, dec, fmt.Errorf("stream denotes a different value\n want: %s\n  got: %s", clipDiff(w, g), clipDiff(g, w))
 	}
+	// every byte sequence the encoder produces: also the one-shot output of an
+	// encoder that has encoded before (each one-shot message is a stream of its own)
+	var again []byte
+	if pv, st := guard(func() {
+		s := hessian.NewSerializer(nil, nm)
+		if _, eerr = s.ToBytes(v); eerr == nil {
+			again, eerr = s.ToBytes(v)
+		}
+	}); pv != nil || eerr != nil {
+		return bytes, got, dec, fmt.Errorf("second ToBytes on one Serializer failed: %v %v [%s]", eerr, pv, st)
+	}
+	got2, _, derr2 := refcodec.Decode(again)
+	if derr2 != nil {
+		return again, got2, dec, fmt.Errorf("second one-shot message of a reused Serializer is not one well-formed value: %v", derr2)
+	}
+	if g2 := av.Canon(got2, c02Canon); g2 != w {
+		return again, got2, dec, fmt.Errorf("second one-shot message of a reused Serializer denotes a different value\n want: %s\n  got: %s", clipDiff(w, g2), clipDiff(g2, w))
+	}
 	return bytes, got, dec, nil
 }
 
